@@ -77,16 +77,20 @@ def confirm_on_skeleton(lib, f, names, p1, call_handler, pboff):
     elif "XTS" in f.name:
         lens = list(range(16, 300))
     pbs = (0, 8) if "_update_" in f.name else (0,)
+    # the other scalar arguments select paths too (a 12-byte AAD and the tag lengths have their own code)
+    combos = [(L_, 20, 16) for L_ in lens]
+    if "gcm" in f.name:
+        combos += [(L_, A_, T_) for L_ in (1, 16, 100) for A_ in (0, 1, 12, 16, 33) for T_ in (8, 12, 16)]
     npaths = 0
     for PB in pbs:
-        for L in lens:
+        for (L, AAD_, TAG_) in combos:
             entry = {}
             sargs = {}
             for k, nm in enumerate(names or []):
                 if nm is None:
                     continue
                 isptr = nm not in ("len", "len_bytes", "N", "aad_len", "auth_tag_len")
-                v = ("p", nm, 0) if isptr else (L if nm in ("len", "len_bytes", "N") else 16 if nm == "auth_tag_len" else 20)
+                v = ("p", nm, 0) if isptr else (L if nm in ("len", "len_bytes", "N") else TAG_ if nm == "auth_tag_len" else AAD_)
                 if k < 6:
                     entry[ARGROOTS[k]] = v
                 else:
